@@ -2,15 +2,19 @@
 import math
 from fractions import Fraction
 
-from vcheck import Case, gz, gzlist, gzmat, gnlist, gnat, gopt, gq
+from vcheck import Case, gz, gzlist, gzmat, gnlist, gnmat, gnat, gopt, gq, gbool, gblist
 import tgen
 from props import c13_util as U
 
 PROP = "C13"
 LEVEL = "proof"
-GEN_UNITS = []
-COQ_TARGETS = ["Props/C13.vo", "Alg/C13Harness.vo", "Alg/C13Config.vo", "Alg/C13Vec.vo", "Alg/C13StepArith.vo", "Model/Harness.vo"]
-THEOREM_FILES = ["Props/C13.v"]
+# tie A for the solver loop: Gen/GenSolver.v is the control-flow skeleton of StochasticSolver.solve regenerated from the source of THIS
+# run by tools/pyx2v_skel.py (builder w4-skel); Proofs/W4SSolver.v bridges it to Alg/C13Solver.v and Props/W4SC13.v restates
+# C13_best_model / C13_trace_len / C13_reported_trace_full over the generated function — an edit of the epoch loop in /repo breaks them
+GEN_UNITS = ["GenSolver"]
+COQ_TARGETS = ["Props/C13.vo", "Alg/C13Harness.vo", "Alg/C13Config.vo", "Alg/C13Vec.vo", "Alg/C13StepArith.vo", "Alg/C13Thm.vo", "Model/Harness.vo",
+               "Props/W4SC13.vo"]
+THEOREM_FILES = ["Props/C13.v", "Props/W4SC13.v"]
 COQ_IMPORTS = ("From Coq Require Import List ZArith Bool QArith Qcanon.\n"
                "From PV Require Import Base.Index Np.Array Model.Sparse Model.Harness Model.Repr Alg.C13Samplers Alg.C13Solver Alg.C13Steps Alg.C13Config Alg.C13Harness Alg.C13StepArith.\n")
 RULE = ("samplers: dense / sparse integer tensors with 2..12 cells (empty, one nonzero, some, nearly full, full), every sampler "
@@ -20,9 +24,11 @@ RULE = ("samplers: dense / sparse integer tensors with 2..12 cells (empty, one n
         "boundary, one third through the gcp_opt driver (init as ktensor with non-unit weights / list / random); step: every "
         "update_step / set_failed_epoch of a solve captured (inputs, private state before and after, np.sqrt results), the first two, the "
         "first after a failed epoch and the last replayed through the exact-rational step models; reuse: 2-3 solves on one object vs "
-        "fresh objects under the same seeds; the fixed regression inputs of the repaired findings A-35/A-36/A-37/A-48/C13-S2; config: "
-        "every row of the GCPSampler (kind x request) table on dense / sparse tensors with sizes on both sides of the 1e3 / 1e5 / 1e6 "
-        "thresholds, counts read back from the sampler object; lbfgsb: option corners (maxls 1..3 = abandoned line searches, maxiter "
+        "fresh objects under the same seeds; the fixed regression inputs of the repaired findings A-35/A-36/A-37/A-48/C13-S2/C13-L1/C13-L2; "
+        "config: every row of the GCPSampler (kind x request) table on dense / sparse tensors with sizes on both sides of the 1e3 / 1e5 / "
+        "1e6 thresholds, counts read back from the sampler object and every math.ceil call recorded (float argument, answer) and replayed "
+        "as the table's oracle; stratified: every np.ceil call of samplers.zeros recorded and the number of drawn rows compared with the "
+        "oversampling rule; lbfgsb: option corners (maxls 1..3 = abandoned line searches, maxiter "
         "0/1/3, maxfun 1..3, pgtol 1e10, m=1, factr 10 / 1e16), initial factors C-/F-ordered / non-contiguous views, data scaled by "
         "2^-20..2^20, starts scaled by 2^-3..2^3 (infeasible starts), masks, one third through gcp_opt (mask as tensor / array); what "
         "is handed to / answered by scipy.optimize.fmin_l_bfgs_b captured and the answered vector replayed through the Coq wrapper model; "
@@ -33,16 +39,18 @@ EXPLANATION = ("Theorems (Alg/C13Samplers.v, C13Solver.v, C13Steps.v, C13StepAri
                "from a real pyttb run (numpy.random, pyttb.gcp.optimizers.estimate / fmin_l_bfgs_b / the name np inside "
                "pyttb.gcp.optimizers are wrapped inside the harness process only) and replays them. Each sampler / solve is checked "
                "twice: '<op>' = pyttb agrees with the model, '<op>_prop' = pyttb's own output satisfies what C13 states. A single "
-               "behaviour is accepted everywhere except inside the trigger regions of the open findings C13-S1 (short zero supply, "
-               "decided from the inputs and the captured draws alone: faithful and repaired stratified sampler both accepted) and "
-               "C13-L1 (abandoned line search: info['final_f'] = scipy's reported value or the objective of the returned model).")
+               "behaviour is accepted everywhere except inside the trigger region of the open finding C13-S1 (short zero supply, "
+               "decided from the inputs and the captured draws alone — the NUMBER of draws is tied to the request by the oversampling "
+               "rule —: faithful and repaired stratified sampler both accepted). Comparisons of exact observations are made in Coq; "
+               "only identity / array_equal bits (obs_bits) are decided by the harness.")
 CORRESPONDENCE_ONLY = ["floating-point rounding of the Adam / Adagrad / SGD update arithmetic (the exact-rational step functions are theorems: closed forms, direction, bounds, state updates; pyttb's floats are compared with them to 1e-9 on the captured steps) and numpy's sqrt (oracle: >= 0 and s*s = x to 1e-9 checked on every captured call)",
                        "scipy.optimize.fmin_l_bfgs_b itself (oracle; its contract 'returned point never worse than a feasible start, result inside the bounds' is checked on sampled runs incl. abandoned line searches)",
-                       "GCPSampler default counts / LBFGSB wrapper / update steps: theorems are about hand models (Alg/C13Config.v, C13Steps.v) tied by read-back / capture correspondence, not by translation",
+                       "GCPSampler default counts / oversampling rule of samplers.zeros / LBFGSB wrapper / update steps / sampler bodies: theorems are about hand transliterations (Alg/C13Config.v, C13Samplers.v, C13Steps.v) tied by read-back / capture correspondence (float ceilings, square roots, draws, scipy's answer are recorded oracles), not by translation; the StochasticSolver.solve loop IS tied by translation (Gen/GenSolver.v, Props/W4SC13.v)",
                        "gcp_opt driver (initial-guess normalisation, mask conversion, dispatch): exercised by the solve / lbfgsb cases that go through it (returned initial model has unit weights and denotes the init handed in; random init scaled to the data norm; caller's data unchanged), no theorem"]
 ASSUMPTIONS = ["numpy draws are multiples of 2^-53 in [0,1); the float product u*d is taken exactly (its rounding is not modelled)",
                "objective estimates are compared by their exact float values; NaN estimates are outside the model (total order)",
-               "scipy.optimize.fmin_l_bfgs_b returns a point of the start's length that is never worse than a FEASIBLE start and keeps it feasible (scipy_contract); nothing is assumed about the value it reports — the clause 'reported value = objective at the returned point' (scipy_reports_value) is a separate hypothesis of C13_lbfgsb_final_f and fails after an abandoned line search (finding C13-L1)",
+               "scipy.optimize.fmin_l_bfgs_b returns a point of the start's length that is never worse than a FEASIBLE start and keeps it feasible (scipy_contract); about the value it reports only 'reported value = objective at the returned point unless warnflag = 2' (scipy_reports_value) is assumed, and only by C13_lbfgsb_final_f: after an abandoned line search scipy reports the rejected trial point's value and the wrapper re-evaluates (C13-L1, repaired)",
+               "the float quotient / product under math.ceil (GCPSampler defaults) and np.ceil (samplers.zeros) lies within one rounding (2^-52 relative) of the exact one; ceil itself is exact on its float argument (both checked on every recorded call)",
                "an infeasible start is first projected into the box by scipy: 'the start' of the never-worse clause is that projected point",
                "of the square root only 0 <= sqrt(x) is assumed in the step theorems"]
 
@@ -180,6 +188,13 @@ def gen_cases(rng, tier):
     a = {"shape": [2, 2], "subs": [[0, 0]], "vals": [1], "cn": 0, "cz": 2, "seed": 3, "force": None, "kind": "one"}
     for op in ("semistrat", "semistrat_prop"):
         cases.append(Case(op, dict(a), True))
+    # C13-L1 (final_f after an abandoned line search) and C13-L2 (maxiter = 0) are repaired: their witness inputs, unattributed
+    for opts in ({"maxls": 1, "maxiter": 100}, {"maxiter": 0}, {"maxiter": 0, "maxls": 1}):
+        for cb in (False, True):
+            a = U.lb_witness_args(dict(opts)); a["callback"] = cb
+            cases.append(Case("lbfgsb", a, True)); cases.append(Case("lbfgsb_final_f", dict(a), True))
+        cases.append(Case("lbfgsb_reuse", {"opts": dict(opts), "probs": [U.lb_witness_args({}), U.rand_problem(rng, (3, 2, 2)) | {"layout": "F", "mask": None},
+                                                                       U.lb_witness_args({})]}, True))
     # ---- GCPSampler configuration table (counts read back from the object)
     cases += U.config_cases(rng, big)
     return cases
@@ -211,8 +226,6 @@ def run_impl(c):
             raise ValueError(c.op)
     except Exception as ex:
         o = {"exc": type(ex).__name__, "msg": str(ex)[:200]}
-        if c.op.startswith("lbfgsb"):
-            o["meta"] = {"maxiter0": a.get("opts", {}).get("maxiter") == 0}
         if c.op.startswith("solve") and a.get("sparse") and "broadcast" in str(ex):
             # the stratified function/gradient sampler came back with fewer subscripts than values (finding C13-S1)
             o["meta"] = {"short": True}
@@ -247,7 +260,7 @@ def _step_check(a, o):
             parts.append(f"qsgd_check {rate} {decay} {gnat(st['nf'])} {lb} {xs} {gs} {out} {step}")
         elif a["opt"] == "adagrad":
             if len(st["sq_out"]) != 1:
-                return "false"
+                return "false"          # malformed capture (one square root per Adagrad step): fail closed
             parts.append(f"qadagrad_check {lb} {_q(st['before']['gsum'])} {xs} {gs} {_q(st['sq_out'][0])} {out} "
                          f"{_q(st['after']['gsum'])} {step}")
         else:
@@ -257,12 +270,11 @@ def _step_check(a, o):
                          f"{out} {_gqlist(af['m'])} {_gqlist(af['v'])} {_gqlist(af['mp'])} {_gqlist(af['vp'])} {gnat(af['tot'])} {step}")
     for f in o["fails"]:
         if a["opt"] == "adam":
-            if f["before"]["tot"] < a["epoch_iters"]:
-                return "false"
+            parts.append(f"Nat.leb {gnat(a['epoch_iters'])} {gnat(f['before']['tot'])}")
             parts.append(f"qadam_failed_check {gnat(a['epoch_iters'])} {_adam_state(f['before'])} {_gqlist(f['after']['m'])} "
                          f"{_gqlist(f['after']['v'])} {gnat(f['after']['tot'])}")
         elif a["opt"] == "adagrad":
-            parts.append("true" if Fraction(f["after"]["gsum"]) == 0 else "false")
+            parts.append(f"qisz {_q(f['after']['gsum'])}")          # Adagrad restarts its accumulator
     return " && ".join(parts) if parts else None
 
 
@@ -275,8 +287,9 @@ def coq_check(c, o):
     if o.get("skip"):
         return None
     if "exc" in o:
-        if c.op.startswith(("strat", "semi")) and a["cn"] > 0 and not a["subs"]:
-            return "true"          # nonzero samples requested from a tensor without nonzeros: rejection is the right answer
+        if c.op.startswith(("strat", "semi")):
+            # rejection is the right answer exactly for nonzero samples requested from a tensor without nonzeros (decided in Coq)
+            return f"strat_rejected {tgen.gsparse(a['shape'], a['subs'], a['vals'])} {gnat(a['cn'])}"
         if c.op.startswith("solve") and "Infinite gradient" in o.get("msg", ""):
             return None            # the solver's own overflow guard fired: no result to check
         return "false"
@@ -289,7 +302,7 @@ def coq_check(c, o):
         if not _ints(o["vals"]):
             return "false"
         ws = _gqlist(o["weights"])
-        shape_ok = "true" if o["vals_shape"] == [n] and o["weights_shape"] == [n] and o["subs_shape"] == [n, len(shp)] else "false"
+        shape_ok = f"shapes_eqb {gnmat([[n], [n], [n, len(shp)]])} {gnmat([o['vals_shape'], o['weights_shape'], o['subs_shape']])}"
         if c.op == "uniform":
             return (f"zmat_eqb (zuniform_subs {gnlist(shp)} {gzmat(o['draws'])}) {gzmat(o['subs'])} && "
                     f"vec_eqb (zuniform_vals {X} {gzmat(o['draws'])}) {gzlist(o['vals'])} && "
@@ -318,11 +331,14 @@ def coq_check(c, o):
             subs = f"zstrat_subs {S} (znzidx {S}) {nidx} {draws} {gnat(cz)}"
             vals = f"zstrat_vals {S} {nidx} {gnat(cz)}"
             faithful = f"(vec_eqb ({vals}) {gzlist(o['vals'])} && {wchk})"
-            both = f"zmat_eqb ({subs}) {gzmat(o['subs'])} && "
+            # the number of subscript rows zeros() drew is the oversampling rule applied to the request (float quotient / product recorded)
+            zc = "(@nil (Z * Z * Z))" if not o["zceil"] else "[" + "; ".join(f"({gz(n)}, {gz(d)}, {gz(r)})" for n, d, r in o["zceil"]) + "]"
+            rows = f"Z.eqb (zero_draw_rows {zc} {gz(size)} {gz(size - nnz)} {gz(cz)}) {gz(o['zrows'])}"
+            both = f"zmat_eqb ({subs}) {gzmat(o['subs'])} && {rows} && "
             if not short:
                 return both + faithful
             # short zero supply (C13-S1, open): the repaired sampler sizes values and weights by what was obtained
-            rchk = "true" if len(wz) == got else "false"
+            rchk = f"Nat.eqb {gnat(len(wz))} {gnat(max(got, 0))}"
             if cn > 0:
                 rchk += f" && weights_close {_gqlist(wn)} (zq {gz(nnz)}) {gnat(cn)}"
             if got > 0 and len(wz) == got:
@@ -331,9 +347,9 @@ def coq_check(c, o):
             return both + f"({faithful} || (vec_eqb ({fvals}) {gzlist(o['vals'])} && {rchk}))"
         nw = len(o["weights"])
         ntot = len(o["subs"])
-        shape_ok = "true" if o["vals_shape"] == [ntot] and o["weights_shape"] == [ntot] else "false"
+        shape_ok = f"shapes_eqb {gnmat([[ntot], [ntot]])} {gnmat([o['vals_shape'], o['weights_shape']])}"
         if not short:          # the requested counts are delivered
-            shape_ok += " && " + ("true" if ntot == cn + cz else "false")
+            shape_ok += f" && Nat.eqb {gnat(ntot)} ({gnat(cn)} + {gnat(cz)})"
         tot = "true"
         if cn > 0:
             tot += f" && total_close {_gqlist(wn)} (zq {gz(nnz)})"
@@ -347,54 +363,56 @@ def coq_check(c, o):
         s = f"(zsolve {gzlist(ests)} {gnat(a['max_fails'])} {gopt(tol, gz)} {gnat(a['max_iters'])})"
         if c.op == "solve_trace":
             return f"vec_eqb (zfull_trace {gzlist(ests)} {s}) {gzlist(trace)}"
-        bounds = "true" if (o["lb_ok"] or 0 in o["ret_cands"]) else "false"
+        lbq = gopt(o["lb"], _q)
+        # every entry of the returned model respects the bound unless it is the (possibly infeasible) starting guess itself; so does
+        # every model held at an epoch boundary (smallest entries observed raw, compared in Coq)
+        bounds = f"(qabove_b {lbq} {_q(o['min_entry_q'])} || existsb (Nat.eqb 0) {gnlist(o['ret_cands'])})"
         return (f"zsolve_ok {gzlist(ests)} {gnat(a['max_fails'])} {gopt(tol, gz)} {gnat(a['max_iters'])} {gnlist(o['ret_cands'])} "
                 f"{gnat(len(o['ests']) - 1)} {gnat(o['nfails'])} {gnat(o['n_epoch'])} && "
                 f"vec_eqb (zreported_trace {gzlist(ests)} {gnat(a['max_iters'])} {s}) {gzlist(trace)} && "
-                f"{'true' if o['step_trace_len'] == len(trace) and o['init_unchanged'] else 'false'} && "
-                f"{bounds} && {'true' if o['boundary_lb_ok'] else 'false'}")
+                f"Nat.eqb {gnat(o['step_trace_len'])} {gnat(len(trace))} && obs_bits [{gbool(o['init_unchanged'])}] && "
+                f"{bounds} && forallb (qabove_b {lbq}) {_gqlist(o['bmin'])}")
     if c.op == "step":
         return _step_check(a, o)
     if c.op == "lbfgsb":
         parts = []
+        z, zf = U.lb_scale(o["outs"])          # one common scale for both solves of the case
+        zrows = lambda t: _gzmat3([[[z(v) for v in row] for row in f] for f in t])
+        mi = a["opts"]["maxiter"]
         for r in o["outs"]:
-            z, zf = U.lb_scale(r)
-            K0 = f"(mkK {gzlist([z(w) for w in r['weights']])} {_gzmat3([[[z(v) for v in row] for row in f] for f in r['start']])})"
+            K0 = f"(mkK {gzlist([z(w) for w in r['weights']])} {zrows(r['start'])})"
             lbq = gopt(r["lb"], lambda v: gz(z(v)))
-            # info["final_f"]: what scipy reported (the model, faithful to the source).  Only inside the trigger region of the open
-            # finding C13-L1 (abandoned line search) the repaired behaviour — the objective of the returned model — is accepted too.
-            ff = r["final_f"]
-            if r["abandoned"] and Fraction(ff) == Fraction(r["f_end"]):
-                ff = r["scipy_f"]
-            parts.append(f"zlb_ok {K0} {lbq} {gzlist([z(v) for v in r['x']])} {gz(zf(r['scipy_f']))} {gzlist([z(v) for v in r['x0']])} "
-                         f"{gnat(r['nvec'])} {_gzmat3([[[z(v) for v in row] for row in f] for f in r['factors']])} {gz(zf(ff))}")
+            # the wrapper model (repaired code, ONE behaviour): returned model = scipy's vector read back through update, weights kept,
+            # info["final_f"] = scipy's value, or the objective of the returned model when scipy's warnflag is 2 (C13-L1 repaired)
+            parts.append(f"zlb_ok {K0} {lbq} {gzlist([z(v) for v in r['x']])} {gz(zf(r['scipy_f']))} {gnat(max(r['warnflag'], 0))} "
+                         f"{gz(zf(r['f_end']))} {gzlist([z(v) for v in r['x0']])} {gnat(r['nbounds'])} {zrows(r['factors'])} "
+                         f"{gzlist([z(w) for w in r['res_weights']])} {gz(zf(r['final_f']))}")
             parts.append(f"Z.leb {gz(zf(r['f_end']))} {gz(zf(r['f0']))}")          # never worse than the start
-            # the monitor: number of callbacks <= max(maxiter, 1), time_trace slots as modelled (C13_lbfgsb_monitor); max(maxiter, 1) slots
-            # (the repair) are accepted only for maxiter = 0, the trigger region of the open finding C13-L2
-            mi = a["opts"]["maxiter"]
-            slots = "monitor_slots_fixed" if (mi == 0 and r["trace_len"] == 1) else "monitor_slots"
-            parts.append(f"Nat.leb {gnat(r['cb_calls'])} (Nat.max {gnat(mi)} 1) && Nat.eqb {gnat(r['trace_len'])} ({slots} {gnat(mi)}) && "
+            # the monitor: callbacks <= max(maxiter, 1) = time_trace slots, no IndexError (C13_lbfgsb_monitor; C13-L2 repaired)
+            parts.append(f"Nat.leb {gnat(r['cb_calls'])} (Nat.max {gnat(mi)} 1) && Nat.eqb {gnat(r['trace_len'])} (monitor_slots {gnat(mi)}) && "
                          f"negb (monitor_raises {gnat(r['trace_len'])} {gnat(r['cb_calls'])}) && Nat.eqb {gnat(r['cb_calls'])} {gnat(r['nit'])}")
-            parts.append("true" if r["init_unchanged"] and r["shapes_ok"] and r["slots_ok"] and r["res_weights"] == r["weights"]
-                         and r["nbounds"] == r["nvec"] else "false")
-        same = o["outs"][0]["factors"] == o["outs"][1]["factors"] and o["outs"][0]["final_f"] == o["outs"][1]["final_f"]
-        # the user's callback runs (inside the monitor) whenever scipy completed an iteration
-        cb_ok = o["callback_called"] is None or o["callback_called"] == any(r["nit"] >= 1 for r in o["outs"])
-        parts.append("true" if same and o["callback_restored"] and cb_ok else "false")
+            parts.append(f"Nat.eqb {gnat(r['nbounds'])} {gnat(r['nvec'])} && obs_bits {gblist([r['init_unchanged'], r['shapes_ok'], r['slots_ok']])}")
+        r1, r2 = o["outs"][0], o["outs"][1]
+        # the second identical solve on the same object gives the same model and the same final_f
+        parts.append(f"zfactors_eqb {zrows(r1['factors'])} {zrows(r2['factors'])} && Z.eqb {gz(zf(r1['final_f']))} {gz(zf(r2['final_f']))}")
+        # the user's callback runs (inside the monitor) whenever scipy completed an iteration; slot and options restored
+        called = "None" if o["callback_called"] is None else f"(Some {gbool(o['callback_called'])})"
+        parts.append(f"callback_seen_ok {called} {gnlist([max(r['nit'], 0) for r in o['outs']])} && obs_bits [{gbool(o['callback_restored'])}]")
         return " && ".join(parts)
     if c.op == "lbfgsb_final_f":
         # info["final_f"] is the objective of the returned model (hence no worse than the start): C13_lbfgsb_final_f
         parts = []
+        _, zf = U.lb_scale(o["outs"])
         for r in o["outs"]:
-            _, zf = U.lb_scale(r)
             parts.append(f"Z.eqb {gz(zf(r['final_f']))} {gz(zf(r['f_end']))} && Z.leb {gz(zf(r['final_f']))} {gz(zf(r['f0']))}")
         return " && ".join(parts)
     if c.op == "lbfgsb_reuse":
         if any("exc" in r for r in o["reused"] + o["fresh"]):
             return "false"
         re_, fr_ = U.scale_many([r["flat"] for r in o["reused"]], [r["flat"] for r in o["fresh"]])
-        ok = o["restored"] and all(r["le"] for r in o["reused"])
-        return f"list_eqb vec_eqb {gzmat(re_)} {gzmat(fr_)} && {'true' if ok else 'false'}"
+        fe, f0 = U.scale_many([[r["f_end"] for r in o["reused"]]], [[r["f0"] for r in o["reused"]]])
+        return (f"list_eqb vec_eqb {gzmat(re_)} {gzmat(fr_)} && obs_bits [{gbool(o['restored'])}] && "
+                f"forallb (fun p => Z.leb (fst p) (snd p)) (combine {gzlist(fe[0])} {gzlist(f0[0])})")
     if c.op == "reuse":
         if any("exc" in r for r in o["reused"] + o["fresh"]):
             return "false"
@@ -415,11 +433,9 @@ def oracle(c, o):
 
 
 # ----------------------------------------------------------------------------------------- findings
-TRIGGERS = {      # only the OPEN findings (A-47, C13-S1, C13-S3); the repaired ones are regression cases in gen_cases
+TRIGGERS = {      # only the OPEN findings (A-47, C13-S1, C13-S3); the repaired ones (incl. C13-L1, C13-L2) are regression cases in gen_cases
     "sptensor_without_nonzeros": lambda c: c.op.split("_")[0] in ("stratified", "semistrat") and not c.args["subs"] and c.args["cn"] == 0,
     "semistrat_zero_hits_nonzero": lambda c: c.op == "semistrat_prop" and bool(c.meta.get("semi_hit")),
-    "lbfgsb_line_search_abandoned": lambda c: c.op == "lbfgsb_final_f" and bool(c.meta.get("abandoned")),
-    "lbfgsb_maxiter_zero": lambda c: c.op.startswith("lbfgsb") and bool(c.meta.get("maxiter0")),
     "zero_supply_short": lambda c: c.op in ("stratified", "stratified_prop", "solve", "solve_trace") and bool(c.meta.get("short")),
 }
 WITNESSES = U.WITNESSES
